@@ -33,10 +33,12 @@ class Body:
             elif k == "drop":
                 self.succ[i].append((t["t"], ("goto",)))
         self.pred = [[] for _ in range(n)]
+        self._compute_reach()
         for i in range(n):
+            if i not in self.reachable:
+                continue   # dead blocks (left behind by THREAD) define nothing that reaches anywhere
             for (tg, lab) in self.succ[i]:
                 self.pred[tg].append((i, lab))
-        self._compute_reach()
         self._compute_dom()
         self._compute_pdom()
 
